@@ -306,7 +306,8 @@ def emitter_checks(ctx, rng, hook, n):
             # conversion on: a SUPPORTED command directly followed by a brace group is looked up together
             # with the group; when that lookup misses (empty group, unknown argument) the text stays verbatim
             known = rng.choice([c for c in T if c[1:].isalpha()])
-            grp = rng.choice(["{}", "{}", "{x}", "{ab c}", "{1}", long_group(rng)])
+            grp = rng.choice(["{}", "{}", "{x}", "{ab c}", "{1}", long_group(rng), "{{x}}", "{a{b}c}", "{{}", "{{x}",
+                              "{ {y} }"])
             if len(grp) > 20:
                 ctx.count("long_brace_groups_at_emitter")
             if (known + grp) in T:
@@ -329,7 +330,7 @@ def emitter_checks(ctx, rng, hook, n):
             if name in T or name in ("\\pagenumber", "\\totalpage", "\\pagefield", "\\super", "\\sub", "\\line",
                                      "\\geq", "\\leq", "\\chpgn"):
                 continue
-            grp = rng.choice(["", "", "{x}", "{ab c}", "{}", long_group(rng)])
+            grp = rng.choice(["", "", "{x}", "{ab c}", "{}", long_group(rng), "{{x}}", "{a{b}c}", "{{\\alpha}}"])
             if len(grp) > 20:
                 ctx.count("long_brace_groups_at_emitter")
             if (name + grp) in T:
